@@ -44,7 +44,7 @@ type Profile struct {
 func baseWeights() map[string]float64 {
 	return map[string]float64{
 		"set": 2, "setitem": 8, "del": 4, "get": 4, "getitem": 4, "exist": 2, "min": 1, "max": 1, "totals": 2,
-		"flush": 2, "evict": 2, "reopen": 0.7, "audit": 0.7,
+		"flush": 2, "evict": 2, "reopen": 0.7, "audit": 0.7, "misc": 0.4,
 	}
 }
 
@@ -639,7 +639,11 @@ func (g *Gen) build(kind string) (Op, bool) {
 		}
 		switch kind {
 		case "set":
-			return Op{Kind: "set", S: h.ID, C: name, Key: g.pickKey(cc, mc, 0.3), Val: g.value(g.p.BigValues)}, true
+			op := Op{Kind: "set", S: h.ID, C: name, Key: g.pickKey(cc, mc, 0.3), Val: g.value(g.p.BigValues)}
+			if r.Bool(0.12) {
+				op.Var = "any" // SetAny
+			}
+			return op, true
 		case "setitem":
 			k := g.pickKey(cc, mc, 0.3)
 			op := Op{Kind: "setitem", S: h.ID, C: name, Key: k, Val: g.value(g.p.BigValues)}
@@ -650,7 +654,11 @@ func (g *Gen) build(kind string) (Op, bool) {
 			}
 			return op, true
 		case "del":
-			return Op{Kind: "del", S: h.ID, C: name, Key: g.pickKey(cc, mc, 0.7)}, true
+			op := Op{Kind: "del", S: h.ID, C: name, Key: g.pickKey(cc, mc, 0.7)}
+			if r.Bool(0.12) {
+				op.Var = "any" // DeleteAny
+			}
+			return op, true
 		case "write":
 			if h.Disk < 0 {
 				return Op{}, false
@@ -684,7 +692,7 @@ func (g *Gen) build(kind string) (Op, bool) {
 			}
 			return op, true
 		}
-	case "get", "getitem", "exist", "min", "max", "totals", "evict", "len":
+	case "get", "getitem", "exist", "min", "max", "totals", "evict", "len", "misc":
 		hs := g.readable()
 		if len(hs) == 0 {
 			return Op{}, false
@@ -702,6 +710,11 @@ func (g *Gen) build(kind string) (Op, bool) {
 			if r.Bool(0.02) {
 				op.Key, op.KeyNil = nil, true
 			}
+			if kind != "getitem" && r.Bool(0.12) {
+				op.Var = "any" // GetAny / ExistAny
+			}
+		case "misc":
+			op.N = r.Intn(4)
 		case "min", "max":
 			op.WV = r.Bool(0.5)
 		case "evict":
